@@ -237,6 +237,35 @@ theorem C17_match_spec_dynamic (r : ValueRef) (log : Log) (htop : r.isTopic = fa
     subst hl0
     simp [zeros]
 
+theorem matchPreds_all (ps : List LogPred) (log : Log) (h : ∀ p ∈ ps, p.matchLog log = .ok true) :
+    matchPreds ps log = .ok true := by
+  induction ps with
+  | nil => rfl
+  | cons q rest ih =>
+    simp only [matchPreds, h q (List.mem_cons_self), ih (fun p hp => h p (List.mem_cons_of_mem _ hp))]
+
+theorem matchPreds_single (p : LogPred) (log : Log) : matchPreds [p] log = .ok true ↔ p.matchLog log = .ok true := by
+  simp only [matchPreds]
+  cases h : p.matchLog log with
+  | oob => simp
+  | ok b => cases b <;> simp
+
+/-- **Matching is the conjunction of the predicates.**  A definition matches a log exactly when the log comes from
+    its contract and every one of its predicates, taken alone, matches — no predicate's answer depends on another
+    predicate of the same definition. -/
+theorem C17_match_conjunction (d : Definition) (log : Log) :
+    matchDef d log = .ok true ↔
+      log.address = d.contract ∧ ∀ p ∈ d.preds, matchDef { contract := d.contract, preds := [p] } log = .ok true := by
+  unfold matchDef
+  by_cases ha : log.address = d.contract
+  · simp only [ha, ne_eq, not_true_eq_false, if_false, true_and]
+    constructor
+    · intro h p hp
+      exact (matchPreds_single p log).2 (matchPreds_true d.preds log h p hp)
+    · intro h
+      exact matchPreds_all d.preds log (fun p hp => (matchPreds_single p log).1 (h p hp))
+  · simp [ha]
+
 /-- **RLP round trip.**  Any item tree whose strings are shorter than 2^64 bytes, encoded and followed by
     arbitrary bytes, decodes to the same tree and leaves exactly those bytes (with any fuel of at least
     `need i`; twice the encoded length suffices). -/
